@@ -264,7 +264,12 @@ func (ps *parser) or() Expr {
 	l := ps.and()
 	for ps.isOp("||") {
 		ps.next()
-		r := ps.and()
+		var r Expr
+		if ps.isId("forall") || ps.isId("exists") {
+			r = ps.expr()
+		} else {
+			r = ps.and()
+		}
 		l = EBin{"||", l, r}
 	}
 	return l
